@@ -78,6 +78,12 @@ func failingStatements(w *world, maxM int) []failStmt {
 		failStmt{SQL: "UPDATE nosuch SET c = 'z'", Class: "update/unknown-table"},
 		failStmt{SQL: "DELETE FROM nosuch", Class: "delete/unknown-table"},
 		failStmt{SQL: "DELETE FROM nosuch WHERE a = 1", Class: "delete/unknown-table"},
+		// an existing table's name in another letter case names no table (if a version of the engine accepts it,
+		// the statement either succeeds as a whole or leaves nothing behind)
+		failStmt{SQL: fmt.Sprintf("INSERT INTO T1 VALUES (%d, 'r')", next), Class: "insert/unknown-table-other-case", K: 0, M: 1},
+		failStmt{SQL: fmt.Sprintf("INSERT INTO T1 VALUES (%d, 'r'), (%d, 'r')", next, next+1), Class: "insert/unknown-table-other-case", K: 0, M: 2},
+		failStmt{SQL: "UPDATE T1 SET c = 'z'", Class: "update/unknown-table-other-case"},
+		failStmt{SQL: "DELETE FROM T1", Class: "delete/unknown-table-other-case"},
 		failStmt{SQL: "CREATE TABLE t1 (z int)", Class: "create/duplicate"},
 		failStmt{SQL: "CREATE TABLE t1 (a int, c varchar(255))", Class: "create/duplicate"},
 		failStmt{SQL: "UPDATE t1 SET c = a", Class: "update/set-from-column"},
